@@ -21,7 +21,7 @@ RULE = ("history = one model (kind x feature mix x bounds x output calibration x
         "set_weights(get_weights()) round trip; every state is judged on the full product grid and on a missing-value copy; "
         "non-trivial state = grid output range > 1e-3 (a collapsed model is trivially monotone); distinct by digest of (model description, step, weights)")
 MIN_EVENTS = {
-    "quick": {"state/monotone-on-grid": 60, "state/bounded-on-grid": 50, "state/finite": 90},
+    "quick": {"state/monotone-on-grid": 60, "state/bounded-on-grid": 50, "state/finite": 60},
     "thorough": {"state/monotone-on-grid": 4000, "state/bounded-on-grid": 3000, "state/finite": 6000},
 }
 ASSUMPTIONS = [
